@@ -1,5 +1,5 @@
-(* C06 — compiled bytecode recomputes every step from the final operand values; for a pure plan
-   that reproduces the interpreter's values (Model/Bytecode.v, Model/Plan.v). *)
+(* C06 — what the compiled bytecode computes (Model/Bytecode.v, Model/Plan.v):
+   running = constant snapshot + rebuilt plan; re-evaluating the loaded program = resolve of that plan. *)
 From Coq Require Import List Arith Bool Lia.
 From MechV Require Import Model.Plan Model.Bytecode Proofs.PlanP.
 Import ListNotations.
@@ -9,91 +9,119 @@ Section BytecodeP.
   Notation pstep := (@pstep V).
   Variable final : @store V.
 
+  (* a register is good if it holds the final value of its cell *)
   Definition good (rs : @regs V) (c : nat) : Prop := rs c = final c.
 
-  Lemma run_app (a b : list (@binstr V)) rs : run (a ++ b) rs = run b (run a rs).
-  Proof. unfold run. apply fold_left_app. Qed.
+  Lemma run_app (a b : list (@binstr V)) st : fold_left exec (a ++ b) st = fold_left exec b (fold_left exec a st).
+  Proof. apply fold_left_app. Qed.
 
-  (* const loads of final values only make registers good *)
-  Lemma run_loads_good (l : list nat) : forall rs c,
-    (good rs c \/ In c l) -> good (run (map (fun a => CL a (final a)) l) rs) c.
+  Lemma loads_effect (l : list nat) : forall st,
+    snd (fold_left exec (map (fun a => CL a (final a)) l) st) = snd st /\
+    (forall c, good (fst st) c \/ In c l -> good (fst (fold_left exec (map (fun a => CL a (final a)) l) st)) c).
   Proof.
-    induction l as [|a l IH]; intros rs c H; cbn [map run fold_left].
-    - destruct H as [H|[]]. exact H.
-    - fold (run (map (fun a => CL a (final a)) l) (exec rs (CL a (final a)))). apply IH.
-      unfold good, exec, upd. destruct (Nat.eqb c a) eqn:E.
+    induction l as [|a l IH]; intros st; cbn [map fold_left].
+    - split; [reflexivity|]. intros c [H|[]]. exact H.
+    - destruct (IH (exec st (CL a (final a)))) as [P G]. split; [rewrite P; reflexivity|].
+      intros c H. apply G. cbn [exec fst]. unfold good, upd. destruct (Nat.eqb c a) eqn:E.
       + left. apply Nat.eqb_eq in E. subst. reflexivity.
       + destruct H as [H|[H|H]]; [left; exact H | subst; rewrite Nat.eqb_refl in E; discriminate | right; exact H].
   Qed.
 
-  (* one compiled step: good registers stay good, and the step's output becomes good,
-     provided the step's function maps the final operand values to the final output value *)
-  Lemma compile_step_good (st : pstep) rs :
-    s_fn st (map final (s_args st)) = final (s_out st) ->
-    (forall c, good rs c -> good (run (compile_step final st) rs) c) /\
-    good (run (compile_step final st) rs) (s_out st).
+  (* one compiled step: appends exactly that step to the plan, keeps good registers good and makes
+     the step's output and operand registers good — whatever the step's function is *)
+  Lemma compile_step_effect (s : pstep) st :
+    let st' := fold_left exec (compile_step final s) st in
+    snd st' = snd st ++ [s] /\
+    (forall c, good (fst st) c -> good (fst st') c) /\
+    (forall c, In c (s_out s :: s_args s) -> good (fst st') c).
   Proof.
-    intros Hf. unfold compile_step.
-    change (CL (s_out st) (final (s_out st)) :: map (fun a => CL a (final a)) (s_args st) ++ [OP (s_fn st) (s_out st) (s_args st)])
-      with (map (fun a => CL a (final a)) (s_out st :: s_args st) ++ [OP (s_fn st) (s_out st) (s_args st)]).
-    rewrite run_app. set (rs1 := run (map (fun a => CL a (final a)) (s_out st :: s_args st)) rs).
-    assert (G1 : forall c, good rs c \/ In c (s_out st :: s_args st) -> good rs1 c) by (intros c; apply run_loads_good).
-    assert (Hargs : map rs1 (s_args st) = map final (s_args st)).
-    { apply map_ext_in. intros a Ha. apply G1. right. right. exact Ha. }
-    cbn [run fold_left exec]. split.
-    - intros c Hc. unfold good, upd. destruct (Nat.eqb c (s_out st)) eqn:E.
-      + apply Nat.eqb_eq in E. subst c. rewrite Hargs. exact Hf.
-      + apply G1. left. exact Hc.
-    - unfold good, upd. rewrite Nat.eqb_refl, Hargs. exact Hf.
+    unfold compile_step.
+    change (CL (s_out s) (final (s_out s)) :: map (fun a => CL a (final a)) (s_args s) ++ [OP (s_fn s) (s_out s) (s_args s)])
+      with (map (fun a => CL a (final a)) (s_out s :: s_args s) ++ [OP (s_fn s) (s_out s) (s_args s)]).
+    rewrite run_app. destruct (loads_effect (s_out s :: s_args s) st) as [P G].
+    cbn [fold_left exec fst snd]. rewrite P. split; [destruct s; reflexivity|]. split.
+    - intros c Hc. apply G. left. exact Hc.
+    - intros c Hc. apply G. right. exact Hc.
   Qed.
 
-  Lemma compile_good (p : list pstep) : forall rs,
-    (forall st, In st p -> s_fn st (map final (s_args st)) = final (s_out st)) ->
-    (forall c, good rs c -> good (run (compile p final) rs) c) /\
-    (forall st, In st p -> good (run (compile p final) rs) (s_out st)).
+  Lemma compile_effect (p : list pstep) : forall st,
+    let st' := fold_left exec (compile p final) st in
+    snd st' = snd st ++ p /\
+    (forall c, good (fst st) c -> good (fst st') c) /\
+    (forall c, In c (cells p) -> good (fst st') c).
   Proof.
-    induction p as [|st p IH]; intros rs H.
-    - split; [intros c Hc; exact Hc | intros st []].
+    induction p as [|s p IH]; intros st.
+    - cbn. rewrite app_nil_r. repeat split; auto. intros c [].
     - unfold compile. cbn [flat_map]. fold (compile p final). rewrite run_app.
-      destruct (compile_step_good st rs (H st (or_introl eq_refl))) as [K1 K2].
-      destruct (IH (run (compile_step final st) rs) (fun st' Hin => H st' (or_intror Hin))) as [J1 J2].
-      split.
-      + intros c Hc. apply J1, K1, Hc.
-      + intros st' [<-|Hin]; [apply J1, K2 | apply J2, Hin].
+      destruct (compile_step_effect s st) as (P1 & K1 & O1).
+      destruct (IH (fold_left exec (compile_step final s) st)) as (P2 & K2 & O2).
+      cbv zeta. split; [rewrite P2, P1, <- app_assoc; reflexivity|]. split.
+      + intros c Hc. apply K2, K1, Hc.
+      + intros c Hc. unfold cells in Hc. cbn [flat_map] in Hc. apply in_app_or in Hc as [Hc|Hc].
+        * apply K2, O1, Hc.
+        * apply O2, Hc.
   Qed.
 End BytecodeP.
 
-(* Main theorem: for a pure plan, running the compiled program from ANY initial register file leaves in
-   the register of every step's output cell exactly the value the interpreter computed for that cell. *)
-Theorem compile_run_correct {V} (p : list (@pstep V)) (s0 : @store V) :
+(* 1. Running the compiled program, from ANY register file and for ANY plan, leaves in every register the
+      program touches the value its cell held after interpretation: the run's result is a snapshot. *)
+Theorem run_is_snapshot {V} (p : list (@pstep V)) (final : @store V) rs :
+  forall c, In c (cells p) -> fst (run (compile p final) rs) c = final c.
+Proof. intros c Hc. apply (compile_effect final p (rs, [])). exact Hc. Qed.
+
+(* 2. ... and rebuilds exactly the interpreter's plan (same functions over the same cells, same order). *)
+Theorem run_rebuilds_plan {V} (p : list (@pstep V)) (final : @store V) rs :
+  snd (run (compile p final) rs) = p.
+Proof. apply (compile_effect final p (rs, [])). Qed.
+
+(* resolve only looks at the cells of the plan *)
+Lemma resolve_ext_cells {V} (p : list (@pstep V)) : forall (s t : @store V) (extra : list nat),
+  (forall c, In c (cells p ++ extra) -> s c = t c) ->
+  forall c, In c (cells p ++ extra) -> resolve p s c = resolve p t c.
+Proof.
+  induction p as [|st p IH]; intros s t extra H c Hc; [apply H; exact Hc|].
+  cbn [resolve fold_left]. fold (resolve p (solve s st)). fold (resolve p (solve t st)).
+  unfold cells in *. cbn [flat_map] in *.
+  apply (IH (solve s st) (solve t st) (extra ++ s_out st :: s_args st)).
+  - intros c' Hc'. unfold solve, upd. destruct (Nat.eqb c' (s_out st)); [|apply H].
+    + f_equal. apply map_ext_in. intros a Ha. apply H. apply in_or_app. left. right. apply in_or_app. left. exact Ha.
+    + apply in_app_or in Hc' as [Hc'|Hc'].
+      * apply in_or_app. left. right. apply in_or_app. right. exact Hc'.
+      * apply in_app_or in Hc' as [Hc'|Hc'].
+        -- apply in_or_app. right. exact Hc'.
+        -- apply in_or_app. left. destruct Hc' as [<-|Hc']; [left; reflexivity|right; apply in_or_app; left; exact Hc'].
+  - apply in_app_or in Hc as [Hc|Hc].
+    + destruct Hc as [<-|Hc]; [apply in_or_app; right; apply in_or_app; right; left; reflexivity|].
+      apply in_app_or in Hc as [Hc|Hc].
+      * apply in_or_app. right. apply in_or_app. right. right. exact Hc.
+      * apply in_or_app. left. exact Hc.
+    + apply in_or_app. right. apply in_or_app. left. exact Hc.
+Qed.
+
+Lemma In_out_cells {V} (p : list (@pstep V)) st : In st p -> In (s_out st) (cells p).
+Proof. intros H. unfold cells. apply in_flat_map. exists st. split; [exact H|left; reflexivity]. Qed.
+
+(* 3. Re-evaluating the loaded program (step after load) of a PURE plan reproduces the interpreter's value
+      of every step's output, from any initial register file. *)
+Theorem restep_correct {V} (p : list (@pstep V)) (s0 : @store V) :
   plan_pure p ->
-  forall rs st, In st p -> run (compile p (resolve p s0)) rs (s_out st) = resolve p s0 (s_out st).
+  forall rs st, In st p -> restep (compile p (resolve p s0)) rs (s_out st) = resolve p s0 (s_out st).
 Proof.
-  intros Hp rs st Hin.
-  apply (compile_good (resolve p s0) p rs); [|exact Hin].
-  intros st' Hin'. apply step_value_final; assumption.
+  intros Hp rs st Hin. unfold restep.
+  destruct (run (compile p (resolve p s0)) rs) as [rs' plan] eqn:E.
+  assert (Epl : plan = p) by (pose proof (run_rebuilds_plan p (resolve p s0) rs) as R; rewrite E in R; exact R).
+  subst plan.
+  assert (Hrs : forall c, In c (cells p ++ []) -> rs' c = resolve p s0 c).
+  { intros c Hc. rewrite app_nil_r in Hc. pose proof (run_is_snapshot p (resolve p s0) rs c Hc) as R. rewrite E in R. exact R. }
+  rewrite (resolve_ext_cells p rs' (resolve p s0) [] Hrs) by (rewrite app_nil_r; apply In_out_cells; exact Hin).
+  destruct Hp as [Hnd Hre]. apply resolve_idempotent; assumption.
 Qed.
 
-(* What the compiled program computes in general: each step's function of the FINAL operand values.
-   This is the statement that predicts the defect for plans with assignments. *)
-Theorem compile_last_step {V} (pre : list (@pstep V)) (st : @pstep V) (final : @store V) rs :
-  run (compile (pre ++ [st]) final) rs (s_out st) = s_fn st (map final (s_args st)).
-Proof.
-  unfold compile. rewrite flat_map_app. cbn [flat_map]. rewrite app_nil_r, run_app.
-  set (rs0 := run (flat_map (compile_step final) pre) rs).
-  unfold compile_step.
-  change (CL (s_out st) (final (s_out st)) :: map (fun a => CL a (final a)) (s_args st) ++ [OP (s_fn st) (s_out st) (s_args st)])
-    with (map (fun a => CL a (final a)) (s_out st :: s_args st) ++ [OP (s_fn st) (s_out st) (s_args st)]).
-  rewrite run_app. cbn [run fold_left exec]. unfold upd. rewrite Nat.eqb_refl. f_equal.
-  apply map_ext_in. intros a Ha.
-  apply (run_loads_good final (s_out st :: s_args st) rs0 a). right. right. exact Ha.
-Qed.
-
-(* The faithful model violates the property as soon as a cell is assigned after it was read:
-   y := x[..] (here: y := x) ; x = 9.  Interpreter: y = 2.  Bytecode: y = 9. *)
-Theorem C06_refuted_stale_read :
+(* 4. For a plan with a cell assigned after it was read, re-evaluating the loaded program does NOT reproduce
+      the interpreter's values (the run itself still does, by run_is_snapshot):  y := x ; x = 9. *)
+Theorem restep_refuted_stale_read :
   exists (p : list (@pstep nat)) (s0 : @store nat) (st : @pstep nat),
-    In st p /\ run (compile p (resolve p s0)) (fun _ => 0) (s_out st) <> resolve p s0 (s_out st).
+    In st p /\ restep (compile p (resolve p s0)) (fun _ => 0) (s_out st) <> resolve p s0 (s_out st).
 Proof.
   set (rd := {| s_out := 1; s_args := [0]; s_fn := fun l => hd 0 l |}).
   set (wr := {| s_out := 0; s_args := []; s_fn := fun _ => 9 |}).
